@@ -219,6 +219,46 @@ def _lowmapq_simple(src, annotated):
             "split_locus": False, "corner": "lowmapq_simple"}
 
 
+def _bulge_over_annotated(src):
+    """Annotated T1 = A,B,C,D,E with few reads and T2 = A,C; many reads of the unannotated isoform A,C,D',E whose
+    exon D' begins 7-18 bases after D: in the intron graph the weak annotated intron C-D is collapsed into its
+    unannotated neighbour C-D'.  The novel model uses an unannotated intron, whatever the graph calls it."""
+    strand = src.choice(["+", "-"])
+    p_ = src.int(400, 1200)
+    ex = []
+    for i in range(5):
+        ln = src.int(150, 300)
+        ex.append([p_, p_ + ln - 1])
+        p_ += ln + src.int(300, 700)
+    A, B, C, D, E = ex
+    d = src.int(7, 18)
+    side = src.choice(["acceptor", "donor"])
+    if side == "acceptor":
+        Dn = [D[0] + d, D[1]]
+    else:
+        Dn = [D[0], D[1] - d]
+    novel = [A, C, Dn, E]
+    reads = []
+    k = 0
+    for _ in range(src.int(1, 3)):
+        k += 1
+        reads.append(S.exact_read("t%d" % k, "chr1", strand, ex, polya=src.int(22, 30)))
+    for _ in range(src.int(8, 14)):
+        k += 1
+        reads.append(S.exact_read("n%d" % k, "chr1", strand, novel, polya=src.int(22, 30)))
+    overrides = build.splice_overrides("chr1", ex, strand) + build.splice_overrides("chr1", novel, strand)
+    genes = [{"id": "G1", "chr": "chr1", "strand": strand, "canon": "canon",
+              "transcripts": [{"id": "T1", "exons": [list(x) for x in ex]},
+                              {"id": "T2", "exons": [list(A), list(C)]}]}]
+    return {"chroms": [["chr1", E[1] + src.int(900, 2000), src.int(1, 10 ** 6)]], "genes": genes,
+            "hidden_genes": [{"id": "H", "chr": "chr1", "strand": strand, "canon": "canon",
+                              "transcripts": [{"id": "HN", "exons": novel}]}],
+            "overrides": overrides, "reads": reads, "nfiles": 1,
+            "gtf": {"gene_records": True, "transcript_records": True},
+            "opts": ["--data_type", src.choice(["nanopore", "nanopore", "pacbio_ccs"]), "--no_gzip", "--threads", "1"],
+            "split_locus": False, "corner": "bulge_over_annotated"}
+
+
 @st.composite
 def corner_scenarios(draw):
     """Parametrised corner structures of the intron graph (from the leads in hunt/C04): a minor isoform with a
@@ -229,6 +269,8 @@ def corner_scenarios(draw):
     strand = "+"
     if src.bool(0.4):
         return _lowmapq_simple(src, annotated)
+    if src.bool(0.4):
+        return _bulge_over_annotated(src)
     b = src.int(300, 900)
     e1 = [b, b + src.int(90, 150)]
     e2 = [e1[1] + src.int(250, 400), 0]
@@ -268,4 +310,4 @@ def stages(tier):
     q = tier == "quick"
     return [Stage("novel", "hyp", evaluate, n=256 if q else 4000, strategy=scenarios),
             Stage("split", "hyp", evaluate, n=48 if q else 600, strategy=split_scenarios),
-            Stage("corners", "hyp", evaluate, n=48 if q else 600, strategy=corner_scenarios)]
+            Stage("corners", "hyp", evaluate, n=64 if q else 800, strategy=corner_scenarios)]
